@@ -329,6 +329,17 @@ class CommandMixin(object):
             self.v("C17", "bind-changes-nothing", sub.ev, "bind changed the channel database")
         self._usage_check(sub.ev, sub.pre, sub.post, sub.upre, sub.upost, now, False, False)
 
+    def _cmd_oodbind(self, cm, sub, rest, arg, now):
+        """bind with a non-string identifier (outside the input domain)"""
+        self.probes["zone:out-of-domain-bind"] += 1
+        if any(f.get("type") == "error" for f in rest):
+            return
+        # accepted: the connection now acts for an application / side of its own
+        # (1 is not "1"): everything it does is held against the isolation clauses
+        cm.bound = (arg[0], arg[1])
+        if not self._chan_unchanged(sub):
+            self.v("C17", "bind-changes-nothing", sub.ev, "bind changed the channel database")
+
     def _cmd_list(self, cm, sub, rest, arg, now):
         app = cm.app
         want = sub.pre.names(app) if self.allow_list else []
